@@ -147,40 +147,6 @@ def leaves(spec):
     return leaves(spec.get('vec') or spec.get('dg'))
 
 
-def reported_dim(spec, D):
-    """What element.dim reports: the spatial dimension D for plain and DG elements, the number of components for a
-    vector wrapper, the value of the first component for a composite."""
-    if 'vec' in spec:
-        return int(spec['dim']) if 'dim' in spec else reported_dim(spec['vec'], D)
-    if 'comp' in spec:
-        return reported_dim(spec['comp'][0], D)
-    return D
-
-
-def _vec_affected(spec, D):
-    """Dofs.__init__ reads element.dim as the spatial dimension; where it reports something else (vector wrapper with
-    a component count different from D) the element's edge / facet DOFs are treated differently from D."""
-    d = reported_dim(spec, D)
-    sg = signature(build_element(spec))
-    return ((d == 3) != (D == 3) and sg['e'] > 0) or ((d >= 2) != (D >= 2) and sg['f'] > 0)
-
-
-def spec_tags(spec, kind):
-    """Tags known findings match on (input shape only)."""
-    lv = set(leaves(spec))
-    if lv & {'ElementTetRT0', 'ElementTetRT1', 'ElementTetSkeletonP0'}:
-        ref = 'tet-rt1-table'
-    elif 'ElementTri15ParamPlate' in lv:
-        ref = 'tri-15param-table'
-    else:
-        ref = 'ok'
-    try:
-        aff = _vec_affected(spec, DIM[kind])
-    except Exception:            # the element cannot even be built: an observation of the executing driver, not of the tag
-        aff = False
-    return {'elem': label(spec), 'reflocs': ref, 'vecdim': 'affected' if aff else 'ok'}
-
-
 def C(name, *args):
     return {'cls': name, 'args': list(args)} if args else {'cls': name}
 
